@@ -10,7 +10,15 @@ def put(name, body):
     d = re.sub(rf'(<!-- BEGIN {name} -->\n).*?(\n<!-- END {name} -->)', lambda m: m.group(1) + body + m.group(2), d, flags=re.S)
 put('sensitivity-table', table(sorted(glob.glob('/verif/results/sensitivity-*.log'))))
 put('benign-table', table(sorted(glob.glob('/verif/results/benign-*.log'))))
-rows = ['| change | breaks | needs, to manifest | as found | now |', '|---|---|---|---|---|']
+# the matrix: every seeded change against the current checks of its family (default seed)
+matrix = {}
+for f in sorted(glob.glob('/verif/results/seeded-matrix*.log')):
+    for l in open(f):
+        mm = re.match(r'seeded/(\S+) (C\d+) rc=(\d+) \d+s ?(.*)', l.strip())
+        if mm:
+            cls = re.search(r'class=(\S+)', mm.group(4))
+            matrix.setdefault(mm.group(1), []).append({'check': mm.group(2), 'exit': int(mm.group(3)), 'first_line': ('class=' + cls.group(1)) if cls else ''})
+rows = ['| change | breaks | needs, to manifest | as found | now (current checks, default seed) |', '|---|---|---|---|---|']
 for mf in sorted(glob.glob('/verif/seeded/*/meta.json')):
     m = json.load(open(mf)); name = os.path.basename(os.path.dirname(mf))
     def fmt(cs):
@@ -20,7 +28,7 @@ for mf in sorted(glob.glob('/verif/seeded/*/meta.json')):
             out.append(f"{c['check']}: " + ('**caught** `' + cls.group(1).rstrip(':') + '`' if c['exit'] == 1 else 'pass' if c['exit'] == 0 else f"rc={c['exit']}"))
         return '; '.join(out)
     asf = m.get('checks_as_found') or m.get('quick_checks_run_against_it') or []
-    now = m.get('checks_after_strengthening')
+    now = matrix.get(name) or m.get('checks_after_strengthening')
     rows.append(f"| seeded/{name} | {m['property_broken']} | {m['needs_to_manifest']} | {fmt(asf) or m.get('as_found_note','not run')} | {fmt(now) if now else 'unchanged'} |")
 put('seeded-table', '\n'.join(rows))
 open('/verif/DESIGN.md', 'w').write(d)
